@@ -91,6 +91,14 @@ func TestVerifSys(t *testing.T) {
 		sysC07(t)
 	case "c08":
 		sysC08(t)
+	case "c13":
+		res := vlib.NewResult("C13", "sys-c13-tamper", "whole system with a tampering broker front: each of 11 hostile documents (wrongly typed members, null, non-JSON, SDP the parser panics on, huge) is relayed to a real proxy process as the client's offer and to a real client process as the proxy's answer; the process must be alive and poll again afterwards; non-trivial = document delivered, distinct by (side, document)")
+		defer res.Finish()
+		sysC13(res)
+	case "c15":
+		res := vlib.NewResult("C15", "sys-c15-client-binary", "the client binary with unusable -ice values, an unreachable and a refusing broker, and a healthy configuration: it must stay alive with its SOCKS connection open while rendezvous fails, stop polling the broker once the SOCKS connection is closed (polls counted by a per-client broker front), and end on SIGTERM; non-trivial = every case, distinct by case")
+		defer res.Finish()
+		sysC15(res)
 	case "c20":
 		sysC01(t, "C20")
 	default:
